@@ -18,9 +18,10 @@ import CwPlus.Lemmas.Cw4GroupNodup
    weights; the `u64` subtractions on the total never underflow (`update_members_no_underflow`).
 
 **Raw keys.**  That the raw storage keys published by the cw4 spec (`TOTAL_KEY`, `member_key(addr)`) hold
-the same values as the smart queries is *not* a theorem: in the model raw and smart reads are the same
-map.  The byte layout is checked at the correspondence level only — the harness reads both keys straight
-from the contract's storage after every op and the monitor `C09/raw-*` compares them with the smart
+the same values as the smart queries is proved in `Props/C09Raw.lean`, on the byte-level image of a model
+state (`Base/RawStore.lean`, `Model/Cw4Raw.lean`); in *this* file raw and smart reads are the same map.  The
+image is tied to the real storage by the observation field `rawkeys`; in addition the harness reads both keys
+straight from the contract's storage after every op and the monitors `C09/raw-*` compare them with the smart
 queries (`Driver/Cw4Group.lean`).
 -/
 namespace CwPlus.Props.C09
